@@ -115,10 +115,10 @@ Definition step_clock_fixed (s : ostate) (t : Z) (off : Z) : outcome (ostate * Z
 (** ------------------------------------------------------------------ *)
 
 (** The step_clock the model runs.  ONE-LINE SWITCH: after the patch above is
-    applied to /repo replace [step_clock_current] by [step_clock_fixed]
-    (and [F9_present] below by [false]). *)
+    applied to /repo replace [step_clock_current] by [step_clock_fixed];
+    Clock/OverlayLemmas.v ([step_clock_ok]) and Properties/C18.v compile
+    unchanged with either choice. *)
 Definition step_clock := step_clock_current.
-Definition F9_present : bool := true.
 
 (** * Operation sequences *)
 Inductive oop :=
